@@ -216,10 +216,8 @@ impl WorkerPool {
                 Err(RecvTimeoutError::Timeout) => {
                     #[cfg(huginn_net_verif)]
                     crate::verif_hooks::perturb(3);
-                    if shutdown_flag.load(Ordering::Relaxed) {
-                        debug!("HTTP worker {} received shutdown signal", worker_id);
-                        break;
-                    }
+                    // whether to stop is decided at the head of the loop, which looks at the queue again:
+                    // a packet may have been queued (and reported as queued) since the timer fired
                     continue;
                 }
                 Err(RecvTimeoutError::Disconnected) => {
